@@ -122,6 +122,9 @@ pub fn add_rules(kb: &mut KnowledgeBase, rules: Vec<Rule>) {
 /// ```
 pub fn count_rules(kb: &KnowledgeBase, predicate_name: &str) -> usize {
 
+    #[cfg(suiron_verif)]
+    crate::verif_hooks::on_count_rules();
+
     if query_stopped() { return 0; }
 
     match kb.get(predicate_name) {
